@@ -53,6 +53,12 @@ CHECKS.update({
    text="Contained / ReportedOnce / NoRetry / NothingWritten / LastOffsetOnlySuccess are invariants of Persist.tla over all option orders and fault patterns up to 3 publishes; the real bus is driven through random fault patterns (including failure on the first publish of a fresh bus and consecutive failures) and accepted only if every handler still ran, the error handler was called exactly once with the event and its type, Append was attempted at most once and never for an unencodable event, and the store's record count moved only on success.",
    note=PNOTE, ref="DESIGN.md 5/C13, 4.5"),
 })
+
+CHECKS.update({
+ "C12": dict(technique="TLA+ spec Resume.tla (SubscribeWithReplay, publisher, crash between any two steps; as-is and mutant variants) model-checked exhaustively; random histories with restarts, crashes after arbitrary store operations and failing store operations on the real bus, validated against ResumeTrace.tla",
+   text="Resume.tla states the design (load, replay deliver/save, go live, live deliver/save, crash anywhere) and TLC checks in-order / once / only-unsaved-redelivered / saved-monotone / no-loss over all interleavings with a publisher; the as-is variants reproduce the listed finding D11 and the fixed defect D10 as counterexamples. The code is bound by recording every store operation (with the log position its offset denotes) and every delivery of random histories - crashes are injected by ending the calling goroutine inside the store wrapper after a chosen store operation - and validating them against the property automaton ResumeTrace.tla.",
+   note="Trusted: TLC, the store wrapper (offset -> position table built from Append results; runtime.Goexit as crash: durable state only changes inside store operations, so crash points between store operations are covered), memory and SQLite stores as both event and subscription store. Publishers are sequential (deliveries of concurrent publishers are not ordered by ebu's design). Listed findings: D11 (publish during SubscribeWithReplay), durable-streams resume offsets.", ref="DESIGN.md 5/C12, 4.5"),
+})
 checks=[]
 for p in props:
     c=CHECKS.get(p['id'])
